@@ -76,6 +76,9 @@ type vScenario struct {
 	Restarts           []vRestart
 	StaleLockTimeoutMs int
 	TimeScale          int // multiplies upstream's test timeouts
+	// number of containers with a generated "priority 0 while still Queued,
+	// later priority>0" history (see the end of vGenScenario); label material
+	HoldRelease int `json:",omitempty"`
 }
 
 func vHealthyPlan(r *rand.Rand) vVMPlan {
@@ -273,6 +276,45 @@ func vGenScenario(seed int64, mode string, maxN int, allowSlowQuota bool) *vScen
 	} else if allowSlowQuota && x < 22 {
 		sc.QuotaAtCreate = []int{r.Intn(nvm/2 + 1)}
 		sc.SlowQuota = true
+	}
+	// Round 3: hold / release of containers that are still Queued (waiting to
+	// be locked): priority 0, dropped from the queue by sync(), later a
+	// positive priority again - they must still be locked, started and
+	// finished. Drawn last so that everything above is unchanged for a given
+	// seed. Only "normal" containers (a process that ends on its own).
+	//  A: created on hold (priority 0 from the start), released after a starts;
+	//  B: held at the very first ticks (0-2 starts observed, most containers are
+	//     still Queued or just being locked), released a few starts later;
+	//  C: like B, held again and released again.
+	npairs := 1 + n/25
+	for k := 0; k < npairs; k++ {
+		i := r.Intn(n)
+		if sc.Containers[i].Behaviour != "normal" {
+			continue
+		}
+		p := prios[r.Intn(len(prios))]
+		switch v := r.Intn(4); {
+		case v == 0:
+			sc.Containers[i].Priority = 0
+			sc.Events = append(sc.Events, vEvent{When: vTrigger{AfterStarts: r.Intn(1 + n/2)}, Kind: "prio", Ctr: i + 1, Prio: p})
+		default:
+			if sc.Containers[i].Priority == 0 {
+				sc.Containers[i].Priority = p
+			}
+			a := r.Intn(3)
+			b := a + 1 + r.Intn(10)
+			sc.Events = append(sc.Events,
+				vEvent{When: vTrigger{AfterStarts: a}, Kind: "prio", Ctr: i + 1, Prio: 0},
+				vEvent{When: vTrigger{AfterStarts: b}, Kind: "prio", Ctr: i + 1, Prio: p})
+			if v == 3 {
+				c := b + 1 + r.Intn(5)
+				d := c + 1 + r.Intn(10)
+				sc.Events = append(sc.Events,
+					vEvent{When: vTrigger{AfterStarts: c}, Kind: "prio", Ctr: i + 1, Prio: 0},
+					vEvent{When: vTrigger{AfterStarts: d}, Kind: "prio", Ctr: i + 1, Prio: p})
+			}
+		}
+		sc.HoldRelease++
 	}
 	return sc
 }
